@@ -193,7 +193,12 @@ class DefaultPredictionStrategy(object):
         prefix = string.ascii_lowercase[: max(fant_train_covar.dim() - self.mean_cache.dim() - 1, 0)]
         ftcm = torch.einsum(prefix + "...yz,...z->" + prefix + "...y", [fant_train_covar, self.mean_cache])
 
-        small_system_rhs = targets - fant_mean - ftcm
+        if isinstance(full_output, MultitaskMultivariateNormal):
+            # the caches are flattened (point-major, i.e. interleaved) vectors: flatten the fantasy targets and
+            # their prior mean the same way (targets - fant_mean is `... x m x t`, ftcm is `... x (m * t)`)
+            small_system_rhs = (targets - fant_mean).reshape(*(targets - fant_mean).shape[:-2], -1) - ftcm
+        else:
+            small_system_rhs = targets - fant_mean - ftcm
         small_system_rhs = small_system_rhs.unsqueeze(-1)
         # Schur complement of a spd matrix is guaranteed to be positive definite
         schur_cholesky = psd_safe_cholesky(schur_complement)
